@@ -149,7 +149,7 @@ func plan(prop, tier string) []run {
 		if !q {
 			bud = 90 * time.Second
 		}
-		for _, c := range [][2]string{{"K1^2@v1", "M1"}, {"K2^2@v0e", "M2"}, {"K5^2@v0", "M0"}, {"K10^2@v1", "M0"}, {"K10b^2@v1", "M0"}} {
+		for _, c := range [][2]string{{"K1^2@v1", "M1"}, {"K2^2@v0e", "M2"}, {"K5^2@v0", "M0"}, {"K10^2@v1", "M0"}, {"K10b^2@v1", "M0"}, {"K3b@v4a", "M1"}, {"K2", "M2"}, {"K1", "M1"}} {
 			r = append(r, run{cfg: c[0], menu: c[1], prims: menus[c[1]], budget: bud, maxV: 1})
 		}
 		return r
